@@ -83,7 +83,7 @@ func (c *Ctx) sptCallKind(f *Func, cs *CallSite) string {
 
 func init() {
 	register("C01", propMeta{
-		Explanation:  "Decides the commit-driver and commit-point discipline of the two-phase commit: (R1) SinglePhaseTransaction.Commit returns nil only after SOP Phase1Commit, every participant's Phase1Commit and SOP Phase2Commit returned nil, and every failure path passes Rollback; (R2) the only all-or-nothing registry update (UpdateNoLocks with allOrNothing=true) in the workspace is the commit point in phase2Commit, and phase 1 never flips a handle's active id in the registry; (R3) after the commit point phase2Commit cannot return an error and `committed` is set only on its nil path; (R4) a failed phase1Commit/phase2Commit always passes rollback and returns non-nil; (R5) errors of storage-interface calls reachable from phase1Commit are propagated; (R6) every successful item action is recorded where the nothing-to-commit guard looks; (R7) the priority log holds handle pre-images written before the in-place flip; (R8) every persistent commit step has a correctly guarded undo block in the live rollback and in the dead-transaction log replay. (R9) the rollback store infos are paired with the backends' created flags by position, so getRollbackStoresInfo returns exactly one element per backend.",
+		Explanation:  "Decides the commit-driver and commit-point discipline of the two-phase commit: (R1) SinglePhaseTransaction.Commit returns nil only after SOP Phase1Commit, every participant's Phase1Commit and SOP Phase2Commit returned nil, and every failure path passes Rollback; (R2) the only all-or-nothing registry update (UpdateNoLocks with allOrNothing=true) in the workspace is the commit point in phase2Commit, and phase 1 never flips a handle's active id in the registry; (R3) after the commit point phase2Commit cannot return an error and `committed` is set only on its nil path; (R4) a failed phase1Commit/phase2Commit always passes rollback and returns non-nil; (R5) errors of storage-interface calls reachable from phase1Commit are propagated; (R6) every successful item action is recorded where the nothing-to-commit guard looks; (R7) the priority log holds handle pre-images written before the in-place flip; (R8) every persistent commit step has a correctly guarded undo block in the live rollback and in the dead-transaction log replay. (R9) the rollback store infos are paired with the backends' created flags by position, so getRollbackStoresInfo returns exactly one element per backend. (R10) in fs.StoreRepository.Update and its undo closure every successful storeinfo write is followed by a cache refresh with the record that was written, so after a failed multi-store commit the restored counts are what later transactions read (shared with C20.R4).",
 		DoesNotCover: "Visibility of the committed values themselves (that the blobs/handles written hold the right bytes) and behaviour under concrete fault schedules are not decided; only the control-flow and call-graph shape every such execution must follow.",
 	}, runC01)
 	register("C16", propMeta{
